@@ -22,6 +22,7 @@ type C12Case struct {
 	Try      bool        `json:"try,omitempty"`
 	Avail    []string    `json:"avail,omitempty"`
 	Masks    []int       `json:"masks"`
+	Evals    int         `json:"evals,omitempty"` // evaluations of the same compiled program (different bindings), all events retained until the end
 	Src      string      `json:"src"`
 }
 
@@ -38,7 +39,7 @@ func genC12(t *rapid.T) C12Case {
 	u := UniverseFor(t, tree, false)
 	c := C12Case{U: *u, Tree: tree, Costs: genCosts(t, tree, finiteCosts),
 		Events: rapid.IntRange(1, 2).Draw(t, "events"), Consumer: rapid.IntRange(0, 2).Draw(t, "consumer"),
-		Try: rapid.IntRange(0, 2).Draw(t, "try") == 0, Src: m.Render(tree)}
+		Try: rapid.IntRange(0, 2).Draw(t, "try") == 0, Evals: rapid.IntRange(1, 3).Draw(t, "evals"), Src: m.Render(tree)}
 	if c.Try {
 		var unbound []string
 		for _, v := range u.Vars {
@@ -129,6 +130,10 @@ func checkC12(c C12Case, r *Rec) *Violation {
 	}
 	capacity := 4*c.Tree.Size() + 16
 	binaryApps := 0
+	evals := c.Evals
+	if evals < 1 {
+		evals = 1
+	}
 	for _, mask := range c.Masks {
 		// the same case without events
 		logP := &Log{}
@@ -138,21 +143,6 @@ func checkC12(c C12Case, r *Rec) *Violation {
 			return Violf("C12: compile failed: %v\nsrc=%s", coP, src)
 		}
 		dP, _ := SafeStr(func() string { return eval.Dump(eP) })
-		callsP := logP.Calls()
-		logP.Reset()
-		fP := NewFetcher(u, ccP, logP)
-		fP.Avail = avail
-		call := func(e *eval.Expr, f *Fetcher) Outcome {
-			return Safe(func() (eval.Value, error) {
-				if c.Try {
-					return e.TryEval(f.Ctx())
-				}
-				return e.Eval(f.Ctx())
-			})
-		}
-		oP := call(eP, fP)
-		traceP := append([]m.Ev(nil), logP.Ev...)
-
 		// with events
 		logE := &Log{}
 		ccE, _ := NewConfig(u, logE, Build{Mask: mask, Costs: c.Costs, Events: c.Events})
@@ -161,117 +151,148 @@ func checkC12(c C12Case, r *Rec) *Violation {
 			return Violf("C12: compile fails in event mode: %v\nsrc=%s", coE, src)
 		}
 		dE, _ := SafeStr(func() string { return eval.Dump(eE) })
-		where := func() string {
-			return fmt.Sprintf("config=%s events=%d consumer=%d try=%v available=%v\nsrc=%s\ndump=%s\nbinding=%v", maskName(mask), c.Events, c.Consumer, c.Try, c.Avail, src, dP, describeU(u))
-		}
 		if dE != dP {
-			return Violf("C12: the decompiled program differs in event mode\n%s\nevent-mode dump=%s", where(), dE)
+			return Violf("C12: the decompiled program differs in event mode\nconfig=%s src=%s\nplain=%s\nevent-mode dump=%s", maskName(mask), src, dP, dE)
 		}
-		logE.Reset()
-		fE := NewFetcher(u, ccE, logE)
-		fE.Avail = avail
-		var oE Outcome
-		recs := runWithConsumer(eE, c.Consumer, capacity, func() { oE = call(eE, fE) })
-		// (i) nothing changes
-		if oE.Panic != nil || !SameOutcome(oP, oE) {
-			return Violf("C12: event reporting changes the result\n%s\nwithout events=%v\nwith events=%v", where(), oP, oE)
+		dt, err := m.ReadDump(dP)
+		if err != nil {
+			return Violf("C12: unreadable dump: %v\n%s", err, dP)
 		}
-		if !MatchTrace(logE.Ev, traceP) {
-			return Violf("C12: event reporting changes the fetches / operator calls\n%s\nwithout events=%v\nwith events=%v", where(), m.TraceStrings(traceP), m.TraceStrings(logE.Ev))
+		call := func(e *eval.Expr, f *Fetcher) Outcome {
+			return Safe(func() (eval.Value, error) {
+				if c.Try {
+					return e.TryEval(f.Ctx())
+				}
+				return e.Eval(f.Ctx())
+			})
 		}
-		// (iii) what the consumer holds after the evaluation is what it received
-		var opEvents []m.Ev
-		var fastFlags []bool
-		prevPos := int16(-1)
-		for i, rec := range recs {
-			switch rec.ev.EventType {
-			case eval.LoopEvent:
-				d, ok := rec.ev.Data.(eval.LoopEventData)
-				if !ok {
-					return Violf("C12: LOOP event %d carries %T\n%s", i, rec.ev.Data, where())
-				}
-				if d.CurtIdx <= prevPos {
-					return Violf("C12: LOOP positions do not strictly increase: %d after %d\n%s", d.CurtIdx, prevPos, where())
-				}
-				prevPos = d.CurtIdx
-				if rec.copied && !sameValues(rec.ev.Stack, rec.stackCopy) {
-					return Violf("C12: the Stack of LOOP event %d changed after it was received (no private snapshot)\n%s\nat receipt=%v\nnow=%v", i, where(), rec.stackCopy, rec.ev.Stack)
-				}
-			case eval.OpExecEvent:
-				d, ok := rec.ev.Data.(eval.OpEventData)
-				if !ok {
-					return Violf("C12: OP_EXEC event %d carries %T\n%s", i, rec.ev.Data, where())
-				}
-				if rec.copied && !sameValues(d.Params, rec.paramsCopy) {
-					return Violf("C12: the arguments of OP_EXEC event %d (%s) changed after it was received\n%s\nat receipt=%v\nnow=%v", i, d.OpName, where(), rec.paramsCopy, d.Params)
-				}
-				args := make([]interface{}, len(d.Params))
-				for k, p := range d.Params {
-					args[k] = p
-				}
-				opEvents = append(opEvents, m.Ev{Op: d.OpName, Args: args, Res: d.Res, Err: d.Err})
-				fastFlags = append(fastFlags, d.IsFastOp)
-			default:
-				return Violf("C12: unknown event type %q\n%s", rec.ev.EventType, where())
+		// every evaluation runs first; the events are looked at only when all of them have finished
+		type evalRun struct {
+			vars   map[string]interface{}
+			calls  map[string]int64
+			oP, oE Outcome
+			traceP []m.Ev
+			traceE []m.Ev
+			recs   []evRec
+		}
+		runs := make([]*evalRun, evals)
+		for k := 0; k < evals; k++ {
+			run := &evalRun{vars: rebind(u, k), calls: logP.Calls()}
+			logP.Reset()
+			fP := &Fetcher{Vars: run.vars, Fail: u.Fail(), Avail: avail, Log: logP, Keys: ccP.VariableKeyMap}
+			run.oP = call(eP, fP)
+			run.traceP = append([]m.Ev(nil), logP.Ev...)
+			logE.Reset()
+			fE := &Fetcher{Vars: run.vars, Fail: u.Fail(), Avail: avail, Log: logE, Keys: ccE.VariableKeyMap}
+			run.recs = runWithConsumer(eE, c.Consumer, capacity, func() { run.oE = call(eE, fE) })
+			run.traceE = append([]m.Ev(nil), logE.Ev...)
+			runs[k] = run
+		}
+		for k, run := range runs {
+			oP, oE, recs := run.oP, run.oE, run.recs
+			where := func() string {
+				return fmt.Sprintf("config=%s events=%d consumer=%d try=%v available=%v evaluation %d of %d on the same program\nsrc=%s\ndump=%s\nbinding=%v", maskName(mask), c.Events, c.Consumer, c.Try, c.Avail, k+1, evals, src, dP, run.vars)
 			}
-		}
-		// (ii) OP_EXEC events are exactly the operator applications of this evaluation
-		if !c.Try {
-			dt, err := m.ReadDump(dP)
-			if err != nil {
-				return Violf("C12: unreadable dump: %v\n%s", err, where())
+			// (i) nothing changes
+			if oE.Panic != nil || !SameOutcome(oP, oE) {
+				return Violf("C12: event reporting changes the result\n%s\nwithout events=%v\nwith events=%v", where(), oP, oE)
 			}
-			ref := &m.Env{Vars: u.Bound(), Fail: u.Fail(), Custom: customModel(), Calls: callsP, Fast: mask&MaskFast != 0}
-			_, rerr := ref.Eval(dt)
-			if rerr != m.ErrOptionalFetch {
-				if !MatchTrace(opEvents, ref.Apps) {
-					return Violf("C12: the OP_EXEC events are not the operator applications of the evaluation (name, arguments as at call time, result)\n%s\nevents      =%v\napplications=%v", where(), m.TraceStrings(opEvents), m.TraceStrings(ref.Apps))
+			if !MatchTrace(run.traceE, run.traceP) {
+				return Violf("C12: event reporting changes the fetches / operator calls\n%s\nwithout events=%v\nwith events=%v", where(), m.TraceStrings(run.traceP), m.TraceStrings(run.traceE))
+			}
+			// (iii) what the consumer holds after all evaluations is what it received
+			var opEvents []m.Ev
+			var fastFlags []bool
+			prevPos := int16(-1)
+			for i, rec := range recs {
+				switch rec.ev.EventType {
+				case eval.LoopEvent:
+					d, ok := rec.ev.Data.(eval.LoopEventData)
+					if !ok {
+						return Violf("C12: LOOP event %d carries %T\n%s", i, rec.ev.Data, where())
+					}
+					if d.CurtIdx <= prevPos {
+						return Violf("C12: LOOP positions do not strictly increase: %d after %d\n%s", d.CurtIdx, prevPos, where())
+					}
+					prevPos = d.CurtIdx
+					if rec.copied && !sameValues(rec.ev.Stack, rec.stackCopy) {
+						return Violf("C12: the Stack of LOOP event %d changed after it was received (no private snapshot)\n%s\nat receipt=%v\nnow=%v", i, where(), rec.stackCopy, rec.ev.Stack)
+					}
+				case eval.OpExecEvent:
+					d, ok := rec.ev.Data.(eval.OpEventData)
+					if !ok {
+						return Violf("C12: OP_EXEC event %d carries %T\n%s", i, rec.ev.Data, where())
+					}
+					if rec.copied && !sameValues(d.Params, rec.paramsCopy) {
+						return Violf("C12: the arguments of OP_EXEC event %d (%s) changed after it was received\n%s\nat receipt=%v\nnow=%v", i, d.OpName, where(), rec.paramsCopy, d.Params)
+					}
+					args := make([]interface{}, len(d.Params))
+					for k, p := range d.Params {
+						args[k] = p
+					}
+					opEvents = append(opEvents, m.Ev{Op: d.OpName, Args: args, Res: d.Res, Err: d.Err})
+					fastFlags = append(fastFlags, d.IsFastOp)
+				default:
+					return Violf("C12: unknown event type %q\n%s", rec.ev.EventType, where())
 				}
-				// the IsFastOp flag, for events that correspond one-to-one
-				if len(opEvents) == len(ref.Apps) {
-					for i := range opEvents {
-						if fastFlags[i] != ref.Apps[i].Fast {
-							return Violf("C12: OP_EXEC event %d (%s) reports IsFastOp=%v\n%s", i, opEvents[i].Op, fastFlags[i], where())
+			}
+			// (ii) OP_EXEC events are exactly the operator applications of this evaluation
+			if !c.Try {
+				ref := &m.Env{Vars: run.vars, Fail: u.Fail(), Custom: customModel(), Calls: run.calls, Fast: mask&MaskFast != 0}
+				_, rerr := ref.Eval(dt)
+				if rerr != m.ErrOptionalFetch {
+					if !MatchTrace(opEvents, ref.Apps) {
+						return Violf("C12: the OP_EXEC events are not the operator applications of the evaluation (name, arguments as at call time, result)\n%s\nevents      =%v\napplications=%v", where(), m.TraceStrings(opEvents), m.TraceStrings(ref.Apps))
+					}
+					// the IsFastOp flag, for events that correspond one-to-one
+					if len(opEvents) == len(ref.Apps) {
+						for i := range opEvents {
+							if fastFlags[i] != ref.Apps[i].Fast {
+								return Violf("C12: OP_EXEC event %d (%s) reports IsFastOp=%v\n%s", i, opEvents[i].Op, fastFlags[i], where())
+							}
 						}
 					}
 				}
-			}
-			for _, a := range ref.Apps {
-				if len(a.Args) == 2 {
-					binaryApps++
-				}
-			}
-		} else {
-			var custom []m.Ev
-			for _, ev := range opEvents {
-				for _, a := range ev.Args {
-					if a == eval.DNE {
-						return Violf("C12: an OP_EXEC event of TryEval carries a DNE argument: %s\n%s", ev.String(), where())
+				for _, a := range ref.Apps {
+					if len(a.Args) == 2 {
+						binaryApps++
 					}
 				}
-				if m.IsBuiltin(ev.Op) {
-					f, _ := m.Builtin(ev.Op)
-					want, werr := f(ev.Args)
-					if (werr == nil) != (ev.Err == nil) || (werr == nil && !m.EqualVal(want, ev.Res)) {
-						return Violf("C12: OP_EXEC event is not self-consistent: %s, the operator yields %s\n%s", ev.String(), refString(want, werr), where())
+			} else {
+				var custom []m.Ev
+				for _, ev := range opEvents {
+					for _, a := range ev.Args {
+						if a == eval.DNE {
+							return Violf("C12: an OP_EXEC event of TryEval carries a DNE argument: %s\n%s", ev.String(), where())
+						}
 					}
-				} else {
-					custom = append(custom, ev)
+					if m.IsBuiltin(ev.Op) {
+						f, _ := m.Builtin(ev.Op)
+						want, werr := f(ev.Args)
+						if (werr == nil) != (ev.Err == nil) || (werr == nil && !m.EqualVal(want, ev.Res)) {
+							return Violf("C12: OP_EXEC event is not self-consistent: %s, the operator yields %s\n%s", ev.String(), refString(want, werr), where())
+						}
+					} else {
+						custom = append(custom, ev)
+					}
+					if len(ev.Args) == 2 {
+						binaryApps++
+					}
 				}
-				if len(ev.Args) == 2 {
-					binaryApps++
+				var calls []m.Ev
+				for _, ev := range run.traceE {
+					if ev.Op != "" {
+						calls = append(calls, ev)
+					}
 				}
-			}
-			var calls []m.Ev
-			for _, ev := range logE.Ev {
-				if ev.Op != "" {
-					calls = append(calls, ev)
+				if !MatchTrace(custom, calls) {
+					return Violf("C12: the OP_EXEC events of registered operators differ from the operators' own call log\n%s\nevents=%v\ncalls =%v", where(), m.TraceStrings(custom), m.TraceStrings(calls))
 				}
-			}
-			if !MatchTrace(custom, calls) {
-				return Violf("C12: the OP_EXEC events of registered operators differ from the operators' own call log\n%s\nevents=%v\ncalls =%v", where(), m.TraceStrings(custom), m.TraceStrings(calls))
 			}
 		}
+	}
+	if evals > 1 {
+		r.Class("events-retained-across-evaluations")
 	}
 	r.Class(fmt.Sprintf("consumer-%d", c.Consumer))
 	if c.Try {
